@@ -24,6 +24,11 @@ CONFIGS = [
     dict(mode="KEYS", keys=("a", "b"), raise_=True),
     dict(mode="KEYS", keys=("b",), raise_=False),
     dict(mode="KEYS", keys=(), raise_=False),
+    # every argument value externalised (min_size_to_cache=1): the stored arguments and the argument index hold
+    # data-store references, a look-up built from fresh client-side arguments must still find them
+    dict(mode="ARGUMENTS", keys=(), raise_=False, min_size=1),
+    dict(mode="KEYS", keys=("a",), raise_=True, min_size=1),
+    dict(mode="KEYS", keys=("a", "b"), raise_=False, min_size=1),
 ]
 
 
@@ -48,10 +53,11 @@ class Impl(bfs.System):
         from pynenc.conf.config_task import ConcurrencyControlType as CC
 
         env.reset_world()
+        conf = {"min_size_to_cache": self.cfg["min_size"]} if self.cfg.get("min_size") else {}
         if self.backend == env.MEM:
-            self.app = env.make_app(env.MEM, app_id="c07")
+            self.app = env.make_app(env.MEM, app_id="c07", **conf)
         else:
-            self.app = env.make_app(env.SQLITE, app_id="c07", db=env.reuse_db("c07"))
+            self.app = env.make_app(env.SQLITE, app_id="c07", db=env.reuse_db("c07"), **conf)
         opts: dict = dict(registration_concurrency=CC[self.cfg["mode"]])
         if self.cfg["mode"] == "KEYS":
             opts["key_arguments"] = tuple(self.cfg["keys"])
@@ -179,8 +185,13 @@ class Model(bfs.System):
                 ("history_lengths", tuple(x[2] for x in self.inv)))
 
 
+def _tag(cfg: dict) -> str:
+    return (f"{cfg['mode']}/{','.join(cfg['keys'])}/{'raise' if cfg['raise_'] else 'reuse'}"
+            + ("/externalised" if cfg.get("min_size") else ""))
+
+
 def _unit(item: tuple) -> Partial:
-    ci, depth = item
+    ci, depth, first = item
     cfg = CONFIGS[ci]
     p = Partial()
     impls = [Impl(env.MEM, cfg), Impl(env.SQLITE, cfg)]
@@ -194,8 +205,14 @@ def _unit(item: tuple) -> Partial:
                 return "two-registered-invocations-for-one-key"
         return None
 
-    tag = f"{cfg['mode']}/{','.join(cfg['keys'])}/{'raise' if cfg['raise_'] else 'reuse'}"
-    st = bfs.explore(p, impls, model, lambda h: ALPHABET, depth, tag=tag, invariant=inv)
+    tag = _tag(cfg)
+    if first is None:
+        # the first level (every single operation from the empty system) is judged here ...
+        st = bfs.explore(p, impls, model, lambda h: ALPHABET, 1, tag=tag, invariant=inv)
+    else:
+        # ... and the sub-tree below each first operation in its own unit (states reached through different first
+        # operations are not merged across units: more work, same coverage)
+        st = bfs.explore(p, impls, model, lambda h: ALPHABET, depth - 1, tag=tag, invariant=inv, init_history=[first])
     p.count("bfs_states", st["states"])
     p.max("depth_completed", st["depth"])
     p.count("traces_validated_against_impl", st["transitions"])
@@ -204,7 +221,7 @@ def _unit(item: tuple) -> Partial:
 
 def run(ctx: Ctx) -> None:
     depth = 7 if ctx.thorough else 5
-    items = [(i, depth) for i in range(len(CONFIGS))]
+    items = [(i, depth, f) for i in range(len(CONFIGS)) for f in [None, *ALPHABET]]
     rot = ctx.seed % len(items)
     for part in par.pmap(_unit, items[rot:] + items[:rot]):
         ctx.merge(part)
@@ -219,7 +236,7 @@ def run(ctx: Ctx) -> None:
 def replay(payload: dict) -> bool:
     r = payload["replay"]
     tag = r["config"]
-    cfg = next(c for c in CONFIGS if f"{c['mode']}/{','.join(c['keys'])}/{'raise' if c['raise_'] else 'reuse'}" == tag)
+    cfg = next(c for c in CONFIGS if _tag(c) == tag)
     impls = [Impl(env.MEM, cfg), Impl(env.SQLITE, cfg)]
     model = Model(cfg)
     for s in impls + [model]:
